@@ -812,7 +812,33 @@ func (fr *frame) step(ins ssa.Instruction, lg *Term, b *ssa.BasicBlock) {
 		case *PtrVal:
 			idx := fr.term(x.Index)
 			if idx.op != OpConst {
-				unsupported("symbolic array index at %s", where())
+				// symbolic index into a fixed-size array: one guarded target per cell, out of range panics
+				var ts []PtrTarget
+				for _, t := range base.T {
+					if t.Obj == nil {
+						ex.panicIf(And(g, t.G), "nil array pointer at "+where())
+						continue
+					}
+					if t.Idx >= 0 || t.Sub != "" {
+						unsupported("symbolic index into a nested array at %s", where())
+					}
+					n := int64(len(t.Obj.cells))
+					oob := Or(BVBin(OpBVSLt, idx, BV(0)), Not(BVBin(OpBVSLt, idx, BV(n))))
+					ex.panicIf(And(g, t.G, oob), "array index out of range at "+where())
+					for k := int64(0); k < n; k++ {
+						gk := And(t.G, Eq(idx, BV(k)))
+						if gk.IsFalse() {
+							continue
+						}
+						ts = append(ts, PtrTarget{G: gk, Obj: t.Obj, Idx: int(k)})
+					}
+				}
+				if len(ts) == 0 {
+					fr.env[x] = nilPtr()
+				} else {
+					fr.env[x] = normPtr(ts)
+				}
+				return
 			}
 			var ts []PtrTarget
 			for _, t := range base.T {
